@@ -51,11 +51,18 @@ def units(tier, seed):
                 nch = 1 if nfr < 3 else (8 if nfr == 3 else 16)
                 for k in range(nch):
                     u.append(dict(nfr=nfr, frame=frame, neg=neg, pats=[list(map(list, p)) for p in pats[k::nch]]))
+                # (see below for timelines with repeated timestamps)
                 # the same timeline at UTM-scale global coordinates (objects 1-2 m per frame at |x|, |y| of several 1e5 m)
                 if nfr == 2 and frame != "base_link_tilt" and not neg:
                     u.append(dict(nfr=nfr, frame=frame, neg=neg, far=True, pats=[list(map(list, p)) for p in pats]))
                     # instances whose annotated category differs between the samples (same uuid)
                     u.append(dict(nfr=nfr, frame=frame, neg=neg, relabel=True, pats=[list(map(list, p)) for p in pats]))
+    for d in range(len(DUP_TIMES)):
+        u.append(dict(dup=d))
+    for nfr in (2, 3):
+        pats = [p for p in itertools.product(itertools.product((0, 1), repeat=nfr), repeat=3) if sum(map(sum, p)) >= nfr + 1]
+        for mix in (0, 1):
+            u.append(dict(nfr=nfr, frame="mixed", neg=False, mix=mix, pats=[list(map(list, p)) for p in pats[mix::4]]))
     return u
 
 
@@ -73,8 +80,11 @@ def queries(seed, nfr):
 
 
 def run_unit(unit, acc):
+    if unit.get("dup") is not None:
+        check_case(dict(dup=unit["dup"], queries=[-60000, 0, 20000, 50000, 60000, 100000, 130000, 175000, 200000, 230000, 250000, 300000], tols=TOLS), acc)
+        return
     for pat in unit["pats"]:
-        check_case(dict(nfr=unit["nfr"], frame=unit["frame"], neg=unit["neg"], pres=pat, queries=queries(_SEED[0], unit["nfr"]), tols=TOLS, far=bool(unit.get("far")), relabel=bool(unit.get("relabel"))), acc)
+        check_case(dict(nfr=unit["nfr"], frame=unit["frame"], neg=unit["neg"], pres=pat, queries=queries(_SEED[0], unit["nfr"]), tols=TOLS, far=bool(unit.get("far")), relabel=bool(unit.get("relabel")), mix=unit.get("mix", 0)), acc)
 
 
 FAR = (-400000.0, 300000.0)   # UTM-scale global coordinates
@@ -131,7 +141,10 @@ def _frames(case):
     nfr = case["nfr"]
     out = []
     for k in range(nfr):
-        objs = [_obj(u, k, case["frame"], case["neg"] and k == 1, case) for ui, u in enumerate("ABC") if case["pres"][ui][k]]
+        if case["frame"] == "mixed":   # one frame holding ego-frame and map-frame objects side by side
+            objs = [_obj(u, k, "base_link" if (ui + case.get("mix", 0)) % 2 == 0 else "map", False, case) for ui, u in enumerate("ABC") if case["pres"][ui][k]]
+        else:
+            objs = [_obj(u, k, case["frame"], case["neg"] and k == 1, case) for ui, u in enumerate("ABC") if case["pres"][ui][k]]
         out.append(F.frame_gt(objs, _tilt_ego(k) if case["frame"] == "base_link_tilt" else _E(k, case), TIMES[k], str(k)))
     return out
 
@@ -149,8 +162,47 @@ def _snap(frames):
     return [(id(f), f.unix_time, [(id(o), o.uuid, tuple(o.state.position), tuple(o.state.orientation.q), str(o.frame_id)) for o in f.objects]) for f in frames]
 
 
+DUP_TIMES = [[0, 0, 100000, 200000], [0, 100000, 100000, 250000], [0, 100000, 250000, 250000], [0, 0, 0, 100000], [50000, 50000]]
+
+
+def _check_dup(case, acc):
+    """nearest-frame lookup on a time-ordered list in which two (or three) consecutive frames carry the same timestamp."""
+    times = DUP_TIMES[case["dup"]]
+    frames = []
+    for k, t in enumerate(times):
+        o = G.mk3d(dict(x=1.0 + k, y=0.5, yaw=0.1 * k, uuid="D%d" % k, label="CAR", vel=[1.0, 0.0, 0.0], size=[1.0, 2.0, 1.0], pts=5, t=t), "base_link", None)
+        frames.append(F.frame_gt([o], EGO[k % len(EGO)], t, str(k)))
+    mgr = F.manager("detection", "base_link")
+    saved = mgr.ground_truth_frames
+    mgr.ground_truth_frames = frames
+    try:
+        for q in case["queries"]:
+            for tol in case["tols"]:
+                dts = [abs(q - t) for t in times]
+                m = min(dts)
+                for rep in (0, 1):
+                    acc.exec()
+                    near = ds.get_now_frame(frames, q, tol) if rep == 0 else mgr.get_ground_truth_now_frame(q, tol, False)
+                    acc.compared()
+                    one = dict(case, queries=[q], tols=[tol])
+                    if m == tol and tol != 0:
+                        acc.skip("boundary:tolerance")
+                    elif m > tol:
+                        if near is not None:
+                            acc.violation("nearest:should-be-none", "frame times %s, query %d, tolerance %d: returned frame t=%s, the closest is %d us away" % (times, q, tol, near.unix_time, m), one)
+                    elif near is None:
+                        acc.violation("nearest:missing", "frame times %s, query %d, tolerance %d: nothing returned although a frame is %d us away" % (times, q, tol, m), one)
+                    elif not any(near is f for f in frames) or abs(q - near.unix_time) != m:
+                        acc.violation("nearest:wrong-frame", "frame times %s, query %d, tolerance %d: returned frame t=%s, the closest is %d us away" % (times, q, tol, near.unix_time, m), one)
+                    acc.state(("dup", case["dup"], q, tol, None if near is None else near.unix_time), nontrivial=m <= tol)
+    finally:
+        mgr.ground_truth_frames = saved
+
+
 def check_case(case, acc):
     acc.case()
+    if case.get("dup") is not None:
+        return _check_dup(case, acc)
     frames = _frames(case)
     nfr = case["nfr"]
     times = TIMES[:nfr]
